@@ -126,3 +126,20 @@ impl PieceCounts {
     const fn rooks(&self) -> u32 { self.white.rooks + self.black.rooks }
     const fn queens(&self) -> u32 { self.white.queens + self.black.queens }
 }
+
+/// Static evaluation and score conversion of the engine's heuristic (verification hook)
+#[cfg(inkayaku_verif)]
+pub mod verif {
+    use inkayaku_board::Bitboard;
+    use inkayaku_uci::Score;
+
+    use crate::engine::heuristic::Heuristic;
+    use crate::engine::heuristic::simple::SimpleHeuristic;
+
+    /// White-centric value, exactly what the search multiplies by the colour factor
+    pub fn static_eval(bitboard: &Bitboard, legal_moves_remaining: bool) -> i32 { SimpleHeuristic.evaluate(bitboard, bitboard.calculate_zobrist_pawn_hash(), legal_moves_remaining) }
+    pub fn score_from_value(value: i32, bitboard: &Bitboard) -> Score { SimpleHeuristic.score_from_value(value, bitboard) }
+    pub fn win_score() -> i32 { SimpleHeuristic.win_score() }
+    pub fn draw_score() -> i32 { SimpleHeuristic.draw_score() }
+    pub fn is_checkmate(value: i32) -> bool { SimpleHeuristic.is_checkmate(value) }
+}
